@@ -1151,7 +1151,7 @@ package go_clipper2
 
 //@ func getSegmentIntersectPt variant maxcoord
 //@   props C13
-//@   budget 3
+//@   budget 10
 //@   requires dom(ln1a,61) && dom(ln1b,61) && dom(ln2a,61) && dom(ln2b,61)
 
 //@ func getDx
